@@ -7,6 +7,7 @@ mod c09;
 mod c10;
 mod c11;
 mod c12;
+mod c13;
 mod c16;
 mod fw;
 mod indep;
@@ -57,6 +58,7 @@ fn main() {
         "C10" => c10::check(tier),
         "C11" => c11::check(tier),
         "C12" => c12::check(tier),
+        "C13" => c13::check(tier),
         "C16" => c16::check(tier),
         _ => {
             eprintln!("unknown check {id}");
